@@ -6,4 +6,4 @@ OUT=$1; shift
 HERE=$(cd "$(dirname "$0")/.." && pwd)
 mkdir -p "$OUT"
 printf '%s\n' "$@" | xargs -P 5 -I{} sh -c 'n=$(basename {} .diff); '"$HERE"'/tools/ref_eval.sh {} ${REF_BASE:-HEAD} all > '"$OUT"'/$n.txt 2>&1'
-for f in "$@"; do n=$(basename $f .diff); a=$(grep -E "^(FINDING|UNDECIDED)|does not|fails" "$OUT/$n.txt" | sed -E 's/^(FINDING|UNDECIDED property=C[0-9]+) //' | cut -c1-90 | paste -sd'|'); if [ -z "$a" ]; then echo "$n OK"; else echo "$n ALARM $a"; fi; done
+for f in "$@"; do n=$(basename $f .diff); a=$(grep -v "^NOTE" "$OUT/$n.txt" | grep -E "^(FINDING|UNDECIDED)|does not|fails" | sed -E 's/^(FINDING|UNDECIDED property=C[0-9]+) //' | cut -c1-90 | paste -sd'|'); if [ -z "$a" ]; then echo "$n OK"; else echo "$n ALARM $a"; fi; done
